@@ -1,9 +1,66 @@
 import Drivers.Proto
-/-! Model driver for property C17 (stub: no model operations registered yet). -/
-open Lean Proto
+import St4sd.Model.Env
+/-! Model driver for property C17.
+
+ops
+* `{"op":"node","sys":D,"envs":[[platform,[[envname,D],...]],...],"platform":str,"launch":D,
+    "name":str|null,"interp":bool}` → `{"ok":D}` | `{"error":"unknownEnv"}`   (`environmentForNode`)
+* `{"op":"withname", ... same ..., "expand":bool,"remove":bool}`               (`environmentWithName`)
+* `{"op":"subst","kind":"T"|"E","map":D,"s":str}` → `{"out":str}`  (`Template.safe_substitute` / `expandvars`)
+`D` = `[[key,value],...]`.  Environment names in `envs` are spelled as in the document
+(the model lower-cases them like `FlowIR.from_dict`).
+-/
+open Lean Proto St4sd.Env St4sd.Assoc
+
+def parseDict (j : Json) : Except String Dict := do
+  (← j.getArr?).toList.mapM (fun e => do
+    let a ← e.getArr?
+    if a.size != 2 then throw "dict entry must be [key,value]"
+    return ((← a[0]!.getStr?).toList, (← a[1]!.getStr?).toList))
+
+def parseEnvs (j : Json) : Except String Envs := do
+  (← j.getArr?).toList.mapM (fun pe => do
+    let a ← pe.getArr?
+    if a.size != 2 then throw "platform entry must be [platform, envs]"
+    let envs ← (← a[1]!.getArr?).toList.mapM (fun ne => do
+      let b ← ne.getArr?
+      if b.size != 2 then throw "env entry must be [name, dict]"
+      return ((← b[0]!.getStr?).toList, (← parseDict b[1]!)))
+    return ((← a[0]!.getStr?).toList, envs))
+
+/-- first occurrence of every key (association lists may shadow) -/
+def dedupe (d : Dict) : Dict :=
+  (d.foldl (fun (acc : Dict × List St4sd.Str.S) kv =>
+    if acc.2.contains kv.1 then acc else (kv :: acc.1, kv.1 :: acc.2)) ([], [])).1.reverse
+
+def dictJson (d : Dict) : Json := jarr ((dedupe d).map fun kv => jarr [jchars kv.1, jchars kv.2])
+
+def resJson : Except Err Dict → Json
+  | .ok d => jobj [("ok", dictJson d)]
+  | .error .unknownEnv => jobj [("error", jstr "unknownEnv")]
 
 def handle (j : Json) : Except String Json := do
   let op ← getStr j "op"
-  throw s!"unknown op {op}"
+  match op with
+  | "node" | "withname" =>
+    let sys ← parseDict (← j.getObjVal? "sys")
+    let envs := loadEnvs (← parseEnvs (← j.getObjVal? "envs"))
+    let plat ← getChars j "platform"
+    let launch ← parseDict (← j.getObjVal? "launch")
+    let name := (← getOptStr j "name").map String.toList
+    if op == "node" then
+      let interp ← getBool j "interp"
+      return resJson (envForNode sys envs plat launch name interp)
+    else
+      let expand ← getBool j "expand"
+      let remove ← getBool j "remove"
+      return resJson (envWithName sys envs plat launch name expand remove)
+  | "subst" =>
+    let kind ← getStr j "kind"
+    let m ← parseDict (← j.getObjVal? "map")
+    let s ← getChars j "s"
+    let out := if kind == "T" then substT (dget m) s else expandvars (dget m) s
+    return jobj [("out", jchars out)]
+  | _ => throw s!"unknown op {op}"
 
 def main : IO Unit := serve handle
